@@ -49,6 +49,9 @@ LAYOUTS = [
     # names git prints QUOTED in its porcelain output (space, non-ASCII, a double quote)
     {"pfile": "release notes.txt", "ufile": "other file.txt", "vp": "MAJOR.MINOR.PATCH", "cur": "1.2.3", "args": ["--patch"]},
     {"pfile": "docs/gr\u00fc\u00dfe.md", "ufile": "\u00fcbrig.txt", "vp": "MAJOR.MINOR.PATCH", "cur": "1.2.3", "args": ["--patch"]},
+    # the unrelated file's name is a string prefix of the pattern file's path (README next to README.md)
+    {"pfile": "README.md", "ufile": "README", "vp": "MAJOR.MINOR.PATCH", "cur": "1.2.3", "args": ["--patch"]},
+    {"pfile": "src/pkg/version.py", "ufile": "src/pkg/ver", "vp": "MAJOR.MINOR.PATCH", "cur": "0.9.9", "args": ["--minor"]},
 ]
 
 
@@ -60,7 +63,7 @@ def cases(ctx):
             if rep > 0 and li != rep % len(LAYOUTS):
                 continue
             if rep == 0 and li in (1, 2) and ctx.quick:
-                # quick: the full product on layouts 0, 3, 4, 5, 6; layouts 1, 2 only in thorough
+                # quick: the full product on layouts 0, 3..8; layouts 1, 2 only in thorough
                 continue
             for st in STATUSES:
                 for role in ROLES:
